@@ -46,7 +46,10 @@ def cat_ops(opc):
     return cats
 
 
-def make_ob(tname, opc, op, cat, k, big, tier):
+HYPH = (7, 9, 10)   # 'not in', 'is not', 'exception match': xdis spells them with hyphens (known finding)
+
+
+def make_ob(tname, opc, op, cat, k, big, tier, hyph=None):
     vt = tuple(opc.version_tuple[:2])
     word = vt >= (3, 6)
     use_src = has_interp(opc) and vt >= (3, 6)
@@ -71,6 +74,10 @@ def make_ob(tname, opc, op, cat, k, big, tier):
         else:
             for j in range(0, nbytes, 2):
                 arg = arg * 65536 + bs[j] + 256 * bs[j + 1]
+        if hyph is not None:
+            is_h = any(arg == h for h in HYPH)
+            if is_h != hyph:
+                return False
         if big:
             # indexing a 300-entry table with a symbolic index is realised one value at a time: windows across the
             # 255/256 boundary of the index, also for operands that encode the index shifted by 1 or 2 bits
@@ -139,8 +146,9 @@ def make_ob(tname, opc, op, cat, k, big, tier):
         assert got is not None and got.opcode == op, "no instruction at %d" % off
         assert _same(got.argval, want), "argval: xdis %r, CPython %r (operand %r)" % (got.argval, want, arg)
 
-    return Ob(id="C03.%s.op%d.k%d%s" % (tshort(tname), op, k, ".big" if big else ""), prop="C03", params=params, body=body,
-              pre=pre, funcs=FUNCS, region="%s.%s" % (tshort(tname), opc.opname[op]),
+    return Ob(id="C03.%s.op%d.k%d%s%s" % (tshort(tname), op, k, ".big" if big else "", ".hyph" if hyph else ""), prop="C03",
+              params=params, body=body,
+              pre=pre, funcs=FUNCS, region="cmp_op-hyphenated" if hyph else "%s.%s" % (tshort(tname), opc.opname[op]),
               skeleton="table=%s opcode=%d(%s) category=%s prefixes=%d tables=%s" % (tname, op, opc.opname[op], cat, k, "300 markers" if big else "small"),
               bound="operand bytes symbolic (operand < 20000)" if not big else
               "operand in [250,262] U [506,518] U [1018,1030] (index crossing 255/256, also when shifted by 1 or 2 bits)", timeout=60 if tier == "quick" else 200,
@@ -208,7 +216,11 @@ def generate(tier, seed):
                 ks = (0,) if tier == "quick" else (0, 1)
             for k in ks:
                 if k == 0:
-                    obs.append(make_ob(tname, opc, op, cat, 0, False, tier))
+                    if cat == "hascompare" and vt < (3, 9):
+                        obs.append(make_ob(tname, opc, op, cat, 0, False, tier, hyph=False))
+                        obs.append(make_ob(tname, opc, op, cat, 0, False, tier, hyph=True))
+                    else:
+                        obs.append(make_ob(tname, opc, op, cat, 0, False, tier))
                 if cat != "hascompare" and (k >= 1 or vt < (3, 6)):
                     obs.append(make_ob(tname, opc, op, cat, k, True, tier))
     return obs
